@@ -168,7 +168,7 @@ def labels(ctx, R):
     for d in DIRECTIONS:
         for border in (False, True):
             ps, pt = emit.pipe(ctx, SVG, d, n=2, show_border=border), emit.pipe(ctx, TEX, d, n=2, show_border=border)
-            for i in range(2):
+            for i in range(len(ps.nodes)):
                 f, bs = box_of(ps, i, SVG)
                 g, bt = box_of(pt, i, TEX)
                 R.saw(f, g)
@@ -202,7 +202,7 @@ def labels(ctx, R):
             m = re.search(r"\{\\strut (.*)\};$", t)
             if m:
                 used.append(_fill(m.group(1), h))
-        R.check(used == ["\\textint2name(0)", "\\textint2name(1)"], "C09.TEXT", "%s|tex label uses its own macro" % d, where(g2), "label i shows \\text<name(i)>", "TikZ labels show %s" % used)
+        R.check(used == ["\\textint2name(%d)" % i for i in range(len(ks))], "C09.TEXT", "%s|tex label uses its own macro" % d, where(g2), "label i shows \\text<name(i)>", "TikZ labels show %s" % used)
 
 
 @rule("C09.DOTS")
@@ -227,7 +227,7 @@ def dots(ctx, R):
                 m = re.search(r"minimum size=(.+)bp, \nfill=dotColor(.+)\] at \((.+), (.+)\) \{\};$", t, re.S)
                 if m:
                     tv.append((_fill(m.group(3), h), _fill(m.group(4), h), _fill(m.group(1), h)))
-            ok = len(sv) == 2 and len(tv) == 2
+            ok = len(sv) == len(ps.nodes) and len(tv) == len(ps.nodes)
             for s_, t_ in zip(sv, tv):
                 ok = ok and s_[0] == t_[0] and s_[1] == t_[1] and t_[2] == (A(s_[2]) * C(2)).key()
             R.check(ok, "C09.DOT", "%s chain=%s" % (d, chain), where(g), "same dot coordinate (root's data position), TikZ size = 2r", "dots differ: SVG (cx, cy, r) %s vs TikZ (x, y, size) %s" % (sv, tv))
@@ -251,8 +251,9 @@ def colour_slots(ctx, R, rule_id="C09.COLOUR"):
             defs.setdefault(m.group(1), []).append((_fill(m.group(2), h), _fill(m.group(3), h)))
     kt = [pt.item_index(n) for n in pt.nodes]
     ksv = [ps.item_index(n) for n in ps.nodes]
+    NN = len(pt.nodes)
     for k in KINDS:
-        want = [("int2name(%d)" % i, "hex2html(COLOR('%sColor', DATUM%s, i=%d))" % (k, kt[i], i)) for i in range(2)]
+        want = [("int2name(%d)" % i, "hex2html(COLOR('%sColor', DATUM%s, i=%d))" % (k, kt[i], i)) for i in range(NN)]
         R.check(defs.get(k) == want, rule_id, "definecolor %sColor" % k, where(g), "\\definecolor{%sColor<name(i)>} = hex2html(self.%sColor(datum i, i))" % (k, k), "TeX colour definitions for %s are %s, expected %s (own accessor, own datum, own index)" % (k, defs.get(k), want))
     # SVG uses
     svg_uses = {}
@@ -275,10 +276,10 @@ def colour_slots(ctx, R, rule_id="C09.COLOUR"):
             t, h = flat(e["attrib"]["style"])
             txt.append(_vals(h))
     want = lambda k, i: "hex2rgbstr(COLOR('%sColor', DATUM%s, i=%d))" % (k, ksv[i], i)
-    R.check(svg_uses.get("dot") == [[want("dot", 0)], [want("dot", 1)]], rule_id, "svg dot colour", where(f), "dot i filled with dotColor(datum i, i)", "SVG dot colours are %s" % svg_uses.get("dot"))
-    R.check(svg_uses.get("link") == [[want("link", 0)], [want("link", 1)]], rule_id, "svg link colour", where(f), "link i stroked with linkColor(datum i, i)", "SVG link colours are %s" % svg_uses.get("link"))
-    R.check(rect == [[want("labelBg", 0), want("border", 0)], [want("labelBg", 1), want("border", 1)]], rule_id, "svg label colours", where(f), "label i: labelBgColor / borderColor of datum i", "SVG label background/border colours are %s" % rect)
-    R.check(txt == [[want("labelText", 0)], [want("labelText", 1)]], rule_id, "svg text colour", where(f), "text i: labelTextColor of datum i", "SVG text colours are %s" % txt)
+    R.check(svg_uses.get("dot") == [[want("dot", i)] for i in range(NN)], rule_id, "svg dot colour", where(f), "dot i filled with dotColor(datum i, i)", "SVG dot colours are %s" % svg_uses.get("dot"))
+    R.check(svg_uses.get("link") == [[want("link", i)] for i in range(NN)], rule_id, "svg link colour", where(f), "link i stroked with linkColor(datum i, i)", "SVG link colours are %s" % svg_uses.get("link"))
+    R.check(rect == [[want("labelBg", i), want("border", i)] for i in range(NN)], rule_id, "svg label colours", where(f), "label i: labelBgColor / borderColor of datum i", "SVG label background/border colours are %s" % rect)
+    R.check(txt == [[want("labelText", i)] for i in range(NN)], rule_id, "svg text colour", where(f), "text i: labelTextColor of datum i", "SVG text colours are %s" % txt)
     # TeX uses name the kind they draw with the node's own name
     g, doc, r = _tex(pt, "add_labels")
     uses = []
@@ -287,7 +288,7 @@ def colour_slots(ctx, R, rule_id="C09.COLOUR"):
         m = re.search(r"borderColor(<\d+>), fill=labelBgColor(<\d+>).*text=labelTextColor(<\d+>)\] \{\\strut \\text(<\d+>)\}", t, re.S)
         if m:
             uses.append([_fill(m.group(j), h) for j in range(1, 5)])
-    R.check(uses == [["int2name(%d)" % i] * 4 for i in range(2)], rule_id, "tex label uses", where(g), "label i uses borderColor/labelBgColor/labelTextColor/text <name(i)>", "TikZ label i refers to colours/text named %s" % uses)
+    R.check(uses == [["int2name(%d)" % i] * 4 for i in range(NN)], rule_id, "tex label uses", where(g), "label i uses borderColor/labelBgColor/labelTextColor/text <name(i)>", "TikZ label i refers to colours/text named %s" % uses)
     g, doc, r = _tex(pt, "add_dots")
     uses = []
     for x in doc:
@@ -295,7 +296,7 @@ def colour_slots(ctx, R, rule_id="C09.COLOUR"):
         m = re.search(r"fill=dotColor(<\d+>)\]", t)
         if m:
             uses.append(_fill(m.group(1), h))
-    R.check(uses == ["int2name(0)", "int2name(1)"], rule_id, "tex dot uses", where(g), "dot i uses dotColor<name(i)>", "TikZ dots use dotColor%s" % uses)
+    R.check(uses == ["int2name(%d)" % i for i in range(NN)], rule_id, "tex dot uses", where(g), "dot i uses dotColor<name(i)>", "TikZ dots use dotColor%s" % uses)
     g, doc, r = _tex(pt, "add_links")
     uses = []
     for x in doc:
@@ -303,7 +304,7 @@ def colour_slots(ctx, R, rule_id="C09.COLOUR"):
         ms = re.findall(r"color=linkColor(<\d+>)", t)
         if ms:
             uses.append(sorted({_fill(m_, h) for m_ in ms}))
-    R.check(uses == [["int2name(0)"], ["int2name(1)"]], rule_id, "tex link uses", where(g), "link i uses linkColor<name(i)>", "TikZ links use linkColor%s" % uses)
+    R.check(uses == [["int2name(%d)" % i] for i in range(NN)], rule_id, "tex link uses", where(g), "link i uses linkColor<name(i)>", "TikZ links use linkColor%s" % uses)
     # without border: no border colour is defined or used
     pt2 = emit.pipe(ctx, TEX, d, n=2, show_border=False)
     g, doc, r = _tex(pt2, "add_labels")
@@ -339,7 +340,7 @@ def link(ctx, R):
             ps, pt = emit.pipe(ctx, SVG, d, n=2, chain=chain), emit.pipe(ctx, TEX, d, n=2, chain=chain)
             g, doc, r2 = _tex(pt, "add_links")
             texs = [x for x in doc if "\\draw" in flat(x)[0]]
-            for i in range(2):
+            for i in range(len(ps.nodes)):
                 f, t, h = svg_path_points(ps, i)
                 R.saw(f, g)
                 tag = "%s chain=%s node %d" % (d, chain, i)
